@@ -65,8 +65,12 @@ func checkC17(c *Ctx) {
 				okR = false
 			}
 		}
-		c.R.Check(okR, "G6.pair", name(b2g), "bytes->GUID", c.Pos(b2g.Pos()), "the 16-byte form is decoded big endian into Data1, Data2, Data3, Data4 (the order the text form prints)",
-			"table: "+leavesString(rl))
+		if len(rl) == 0 {
+			c.R.Infof("G6.pair", name(b2g), "bytes->GUID", c.Pos(b2g.Pos()), "not decided for this shape: the decoding of the 16 bytes is not extracted (no stream read or packed read the extractor follows)")
+		} else {
+			c.R.Check(okR, "G6.pair", name(b2g), "bytes->GUID", c.Pos(b2g.Pos()), "the 16-byte form is decoded big endian into Data1, Data2, Data3, Data4 (the order the text form prints)",
+				"table: "+leavesString(rl))
+		}
 		for _, w := range []*ssa.Function{g2b, wg} {
 			if w == nil {
 				continue
@@ -82,6 +86,17 @@ func checkC17(c *Ctx) {
 			if len(wl) == 0 {
 				c.R.Infof("G6.pair", name(w), "GUID->bytes", c.Pos(w.Pos()), "not decided for this shape: the encoded bytes are not built by a modelled idiom ("+whyW+")")
 				continue
+			}
+			// drop unnamed copies of the whole value (a private copy of the encoded bytes)
+			var named []leaf
+			for _, l := range wl {
+				if (l.id == "bytes" || l.id == "value") && l.width == 16 {
+					continue
+				}
+				named = append(named, l)
+			}
+			if len(named) == 4 {
+				wl = named
 			}
 			ok := len(wl) == 4
 			for k, l := range wl {
@@ -103,6 +118,30 @@ func checkC17(c *Ctx) {
 			res := dv.resolve(r.Results[0], dv.root)
 			call, isCall := res.v.(*ssa.Call)
 			if !isCall || ir.CallID(call) != utilPkg+".BytesToGUID" {
+				// turned away on the outcome of the decode attempt itself (its error, the number of
+				// bytes it produced): the text was decoded first
+				afterDecode := false
+				for _, ce := range ir.DominatingConds(fn, r.Block()) {
+					for v := range c.sliceOfLocal(ce.RawCond) {
+						if dc, isDC := v.(*ssa.Call); isDC && (ir.CallID(dc) == "encoding/hex.DecodeString" || ir.CallID(dc) == "encoding/hex.Decode") {
+							afterDecode = true
+						}
+					}
+				}
+				if afterDecode {
+					continue
+				}
+				// no use of encoding/hex at all: decoded by hand, not evaluated
+				usesHex := false
+				for _, di := range dv.order {
+					if hc, isH := di.i.(*ssa.Call); isH && strings.HasPrefix(ir.CallID(hc), "encoding/hex.") {
+						usesHex = true
+					}
+				}
+				if !usesHex {
+					byHand = true
+					continue
+				}
 				// every result comes from the decoder: a text that is turned away before it
 				// (by a stricter syntax check of the function's own) is not decoded at all
 				ok, det = false, "the return at "+c.IPos(r)+" yields a value that does not come from decoding the text: some texts (for instance upper-case digits, which the hex decoder accepts) are answered without being decoded"
@@ -381,6 +420,8 @@ func (c *Ctx) ruleUTF16() {
 		stdEncode := dv.callsTo("unicode/utf16.Encode")
 		if len(stdEncode) > 0 && len(dv.callsTo("golang.org/x/text/encoding/unicode.UTF16")) == 0 {
 			c.judgeStdUTF16Encode(fn, dv, stdEncode[0], what)
+		} else if why := c.handWrittenUTF16(fn); why != "" {
+			c.R.Infof("A-u.utf16", name(fn), "encode", c.Pos(fn.Pos()), "not decided for this shape: "+why)
 		} else {
 			ok, det := usesLE(fn)
 			// writes through the transform writer (in the function or in a helper that is
@@ -704,7 +745,7 @@ func checkC18(c *Ctx) {
 			}
 		})
 		if len(names) == 0 {
-			c.R.Undecf("H2.bootname", name(fn), "name", c.Pos(fn.Pos()), "the boot entry names produced must be identifiable", "no append of strings found")
+			c.R.Infof("H2.bootname", name(fn), "name", c.Pos(fn.Pos()), "not decided for this shape: the boot entry names are not collected with append of strings (the string evaluator does not follow index writes into a preallocated list)")
 			continue
 		}
 		dv := c.deepViewOf(fn, 2)
@@ -1063,4 +1104,42 @@ func (c *Ctx) judgeStdUTF16Encode(fn *ssa.Function, dv *deepView, enc dinstr, wh
 func constStringEqual(v ssa.Value, s string) bool {
 	k, ok := ir.StripConv(v).(*ssa.Const)
 	return ok && k.Value != nil && k.Value.Kind() == constant.String && constant.StringVal(k.Value) == s
+}
+
+// handWrittenUTF16: the encoder packs code units itself (PutUint16/AppendUint16
+// of values derived from the runes of the string) without the x/text encoder or
+// utf16.Encode, and it does treat runes above U+FFFF specially
+// (utf16.EncodeRune / AppendRune, or a comparison with 0xFFFF/0x10000). Whether
+// that arithmetic is right is not evaluated. "" if the function is not of that
+// shape (in particular: a conversion of runes to 16 bits with no such handling
+// is not excused).
+func (c *Ctx) handWrittenUTF16(fn *ssa.Function) string {
+	packs, surrogate, xtext := false, false, false
+	for _, f := range withAnon(fn) {
+		instrsOf(f, func(i ssa.Instruction) {
+			switch x := i.(type) {
+			case *ssa.Call:
+				id := ir.CallID(x)
+				if _, _, put, isU := uintCallWidth(id); isU && put {
+					packs = true
+				}
+				if id == "unicode/utf16.EncodeRune" || id == "unicode/utf16.AppendRune" {
+					surrogate = true
+				}
+				if strings.HasPrefix(id, "golang.org/x/text/") || id == "unicode/utf16.Encode" {
+					xtext = true
+				}
+			case *ssa.BinOp:
+				for _, side := range []ssa.Value{x.X, x.Y} {
+					if k, isK := ir.ConstInt(side); isK && (k == 0xffff || k == 0x10000) {
+						surrogate = true
+					}
+				}
+			}
+		})
+	}
+	if packs && surrogate && !xtext {
+		return "the string is encoded to UTF-16 by hand (code units packed with PutUint16/AppendUint16, runes above U+FFFF split explicitly)"
+	}
+	return ""
 }
